@@ -610,6 +610,9 @@ ACCUMULATING = {
     "where_case_first": lambda c: (lambda P, Q, t, u, v: Q.from_(t).select(t.a).where(P.Case().when(t.m1q == 1, True).else_(False)).where(t.m2q == 2))(*_acc(c)),
     "having_case_first": lambda c: (lambda P, Q, t, u, v: Q.from_(t).select(t.a).groupby(t.a).having(P.Case().when(t.m1q == 1, True).else_(False)).having(t.m2q == 2))(*_acc(c)),
     "where_function_first": lambda c: (lambda P, Q, t, u, v: Q.from_(t).select(t.a).where(P.functions.Coalesce(t.m1q, 0)).where(t.m2q == 2))(*_acc(c)),
+    # a constraint call without columns adds nothing (primary_key() is like that): no empty UNIQUE ()
+    "create_unique_then_empty": lambda c: (lambda P, Q, t, u, v: Q.create_table("n").columns(P.Column("m1q", "INT")).unique("m1q").unique())(*_acc(c)),
+    "create_unique_empty_alone": lambda c: (lambda P, Q, t, u, v: Q.create_table("n").columns(P.Column("m1q", "INT")).unique())(*_acc(c)),
     # an empty criterion after a real one is neutral, as it is for where()
     "having_then_empty": lambda c: (lambda P, Q, t, u, v: Q.from_(t).select(t.a).groupby(t.a).having(t.m1q == 1).having(P.Criterion.all([])))(*_acc(c)),
     "having_empty_alone": lambda c: (lambda P, Q, t, u, v: Q.from_(t).select(t.m1q).groupby(t.a).having(P.Criterion.all([])))(*_acc(c)),
@@ -617,7 +620,7 @@ ACCUMULATING = {
     "agg_filter_empty_alone": lambda c: (lambda P, Q, t, u, v: Q.from_(t).select(P.functions.Sum(t.m1q).filter(P.Criterion.all([]))))(*_acc(c)),
 }
 CLASS_ONLY = {"returning": ("postgresql",), "distinct_on": ("postgresql",), "returning_not_then_star": ("postgresql",), "returning_json_then_star": ("postgresql",)}
-FIRST_ONLY = {"select_fn_then_star", "select_aliased_then_star", "select_not_then_table_star", "select_criterion_then_table_star", "returning_not_then_star",
+FIRST_ONLY = {"create_unique_then_empty", "create_unique_empty_alone", "select_fn_then_star", "select_aliased_then_star", "select_not_then_table_star", "select_criterion_then_table_star", "returning_not_then_star",
               "returning_json_then_star", "having_then_empty", "having_empty_alone", "agg_filter_then_empty", "agg_filter_empty_alone"}
 
 
@@ -644,6 +647,8 @@ def check_accumulate(case):
             return [(mksig("accumulate", name, "call_lost"), "%s: the item of the first call (m1q) is missing in %r" % (name, sql))]
         if name.endswith("_star") and not any(tk.text == "*" for tk in toks):
             return [(mksig("accumulate", name, "call_lost"), "%s: the star of the second call is missing in %r" % (name, sql))]
+        if lex.balanced(toks) and any(a.text == "(" and b.text == ")" for a, b in zip(toks, toks[1:]) if a.kind == "punct" and b.kind == "punct") and name.startswith("create_"):
+            return [(mksig("accumulate", name, "empty_brackets"), "%s renders an empty bracket pair: %r" % (name, sql))]
         if cls == "sqlite":
             err = sqlite_parse(sql.replace('"t"', '"t1"'))
             if err:
